@@ -18,6 +18,7 @@ from ..workloads import specs as W
 from ._spec_common import eval_tree, run_trees
 
 PROP = "C04"
+ANCHORS = ['dep_logic.specifiers.range:RangeSpecifier.contains', 'dep_logic.specifiers.union:UnionSpecifier.contains', 'dep_logic.specifiers.special:EmptySpecifier.__contains__', 'dep_logic.specifiers.special:AnySpecifier.__contains__', 'dep_logic.specifiers.arbitrary:ArbitrarySpecifier.__and__', 'dep_logic.specifiers.arbitrary:ArbitrarySpecifier.__or__', 'dep_logic.specifiers.arbitrary:ArbitrarySpecifier.contains', 'dep_logic.specifiers:_from_pkg_specifier']
 RULE = ("Expression trees over leaves with every operator (>, >=, <, <=, ==, !=, ~=, ==X.*, !=X.*; comma sets; "
         "pre/post/dev/epoch bounds; non-normalised spellings); candidates = all final releases N(.N){0,3} derived "
         "from the bounds of the case (release, release with last segment +-1, padded/truncated, next minor/major) "
